@@ -537,7 +537,7 @@ def model_value(model, term):
 
 
 class Claim:
-    __slots__ = ("name", "paths", "held", "violated", "unknown", "trivial", "models", "solver_s", "conc")
+    __slots__ = ("name", "paths", "held", "violated", "unknown", "trivial", "models", "solver_s", "conc", "domains")
 
     def __init__(self, name):
         self.name = name
@@ -549,6 +549,7 @@ class Claim:
         self.models = []
         self.solver_s = 0.0
         self.conc = None
+        self.domains = None
 
     def as_dict(self):
         return {k: getattr(self, k) for k in self.__slots__}
@@ -580,6 +581,7 @@ class Env:
         self.resolve_abs = True
         self.hint_solver = False
         self.abstract_div = False
+        self.nonzero_with_defs = True
         self.logic = None
         self.guided_tries = 3
         self.use_ratfun = True
@@ -677,7 +679,7 @@ class Env:
         r, _, _ = self._check(b == 0)
         if r != "unsat":
             r2 = r
-            if self.def_constraints:
+            if self.def_constraints and self.nonzero_with_defs:
                 r2, _, _ = self._check(b == 0, with_defs=True)
             if r2 != "unsat":
                 self.rw_stats["divisors_assumed_nonzero"] += 1
@@ -794,7 +796,18 @@ class Env:
             for d in self.def_constraints:
                 s.add(d)
         t = time.time()
-        r = str(s.check())
+        # watchdog: z3's own timeout is not always honoured inside nonlinear preprocessing; interrupt the context shortly after it
+        import threading
+        limit = (timeout_ms if timeout_ms is not None else self.timeout_ms) / 1000.0
+        wd = threading.Timer(limit * 1.5 + 2.0, s.ctx.interrupt)
+        wd.daemon = True
+        wd.start()
+        try:
+            r = str(s.check())
+        except z3.Z3Exception:
+            r = "unknown"
+        finally:
+            wd.cancel()
         dt = time.time() - t
         m = s.model() if r == "sat" else None
         if not self.logic:
@@ -909,6 +922,18 @@ class Env:
     # ---- inputs
     def real(self, name, lo=None, hi=None, pos=False, nonzero=False, neg=False):
         if self.mode == "conc":
+            if name not in self.values and "__random__" in self.values:
+                import random
+                rng = self.values.setdefault("__rng__", random.Random(self.values["__random__"]))
+                if lo is not None and hi is not None:
+                    v = rng.uniform(float(lo) + 0.05 * (float(hi) - float(lo)), float(hi) - 0.05 * (float(hi) - float(lo))) if float(hi) - float(lo) < 1000 else rng.uniform(0.2, 3.0)
+                elif pos or (lo is not None and float(lo) >= 0):
+                    v = (float(lo) if lo is not None else 0.0) + rng.uniform(0.05, 3.0)
+                elif neg or (hi is not None and float(hi) <= 0):
+                    v = (float(hi) if hi is not None else 0.0) - rng.uniform(0.05, 3.0)
+                else:
+                    v = rng.uniform(-3.0, 3.0)
+                self.values[name] = v
             if name not in self.values:
                 # an input created after the point where the model was taken: any admissible value will do
                 if lo is not None and hi is not None:
@@ -1034,6 +1059,8 @@ class Env:
             c.conc = ok if c.conc is None else (c.conc and ok)
             return ok
         c.paths += 1
+        if c.domains is None and self.domains:
+            c.domains = {n: [None if x is None else float(x) if not isinstance(x, bool) else x for x in d] for n, d in self.domains.items()}
         if isinstance(cond, (bool, numpy.bool_)):
             e = z3.BoolVal(bool(cond))
         else:
@@ -1049,6 +1076,22 @@ class Env:
             if len(c.models) < 3:
                 c.models.append({"values": {"__prefix__": list(self.choice_log)}, "prefix": list(self.prefix[: self.pos]),
                                  "tags": list(self.path_tags)})
+            return False
+        if z3.is_false(es):
+            # reachability witness / concrete failure: one feasibility query of the path condition, no model polishing
+            r, m, dt = self._check(timeout_ms=self.timeout_ms, with_defs=bool(self.def_constraints))
+            c.solver_s += dt
+            if r == "unsat":
+                c.held += 1
+                return True
+            if r == "unknown":
+                c.unknown += 1
+                return None
+            c.violated += 1
+            if len(c.models) < 3:
+                vals = {n: model_value(m, v) for n, v in self.inputs.items()}
+                vals["__prefix__"] = list(self.choice_log)
+                c.models.append({"values": vals, "prefix": list(self.prefix[: self.pos]), "tags": list(self.path_tags)})
             return False
         neg = self._rewrite(z3.Not(e))
         if z3.is_false(z3.simplify(neg)):
@@ -1140,7 +1183,8 @@ class Env:
         if len(c.models) < 3:
             vals = {n: model_value(m, v) for n, v in self.inputs.items()}
             vals["__prefix__"] = list(self.choice_log)
-            c.models.append({"values": vals, "prefix": list(self.prefix[: self.pos]), "tags": list(self.path_tags)})
+            doms = {n: [None if x is None else float(x) if not isinstance(x, bool) else x for x in d] for n, d in self.domains.items()}
+            c.models.append({"values": vals, "prefix": list(self.prefix[: self.pos]), "tags": list(self.path_tags), "domains": doms})
         return False
 
     def witness(self, name):
@@ -1158,12 +1202,17 @@ class Env:
             return "unknown", None, total
         for k in range(tries):
             pins = []
-            free = set(rng.sample(names, min(len(names), 1 if k % 2 == 0 else 2))) if names else set()
+            nfree = 0 if k % 3 == 2 else (1 if k % 2 == 0 else 2)
+            free = set(rng.sample(names, min(len(names), nfree))) if names and nfree else set()
             for n in names:
                 if n in free:
                     continue
                 lo, hi, pos, ng = self.domains.get(n, (None, None, False, False))
-                if lo is not None and hi is not None:
+                if lo is not None and hi is not None and float(hi) - float(lo) > 1000.0:
+                    # very wide range (e.g. a root bracket 1e-15..1e10): use moderate values, huge rationals can stall nlsat
+                    cands = [Fraction(a, b) for a in range(1, 13) for b in (1, 2, 3, 4) if float(lo) < a / b < float(hi)]
+                    val = rng.choice(cands) if cands else frac_of_float((float(lo) + float(hi)) / 2)
+                elif lo is not None and hi is not None:
                     lo_f, hi_f = frac_of_float(float(lo)), frac_of_float(float(hi))
                     val = lo_f + (hi_f - lo_f) * Fraction(rng.randint(1, 11), 12)
                 elif pos or (lo is not None and float(lo) >= 0):
